@@ -65,3 +65,39 @@ MUTANTS = [
     M('C01', 'abstract-slot-admits-any', 'info.py', '                    # not this one; maybe a different one\n                    pass', '                    return info'),
     M('C01', 'extends-matches-base-slot', 'info.py', '            elif info.sectiontype.name == type_:', '            elif info.sectiontype.name == type_ or (not info.sectiontype.isabstract() and type_.startswith(info.sectiontype.name[:1]) and info.name == "*" and len(self._children) == 2):'),
 ]
+
+MUTANTS += [
+    # ---------------- C02
+    M('C02', 'multikey-defaults-always-merged', 'matcher.py', "                if not v:\n                    default = ci.getdefault()\n                    if isinstance(default, dict):", "                if True:\n                    default = ci.getdefault()\n                    if isinstance(default, dict):"),
+    M('C02', 'multisection-reversed', 'matcher.py', "                        v.append(s)\n                elif ci.name == '+':", "                        v.insert(0, s)\n                elif ci.name == '+':"),
+    M('C02', 'multikey-values-prepended', 'matcher.py', "        elif ismulti:\n            v.append(value)", "        elif ismulti:\n            v.insert(0, value)"),
+    M('C02', 'section-datatype-skipped-for-multi', 'matcher.py', "                                s = st.datatype(s)", "                                s = s"),
+    M('C02', 'section-name-not-lowercased', 'cfgparser.py', "        if name:\n            name = self._normalize_case(name)\n", ""),
+    M('C02', 'getSectionName-info-name', 'matcher.py', "    def getSectionName(self):\n        return self._name", "    def getSectionName(self):\n        return self._name if self._matcher.info.name in ('*', '+') or not self._name else self._matcher.info.name.upper()"),
+    M('C02', 'wildcard-defaults-with-keys', 'matcher.py', "                v = values[attr]\n                if not v:\n                    for key, val in ci.getdefault().items():\n                        v[key] = val.convert(ci.datatype)\n                else:", "                v = values[attr]\n                if True:\n                    for key, val in list(v.items()):\n                        v[key] = val.convert(ci.datatype)\n                    for key, val in ci.getdefault().items():\n                        v.setdefault(key, val.convert(ci.datatype))\n                else:"),
+    M('C02', 'default-not-converted', 'matcher.py', "                v = values[attr]\n                if v is not None:\n                    v = v.convert(ci.datatype)", "                v = values[attr]\n                if v is not None:\n                    v = v.convert(ci.datatype) if v.position[2] != v.position[2] or v.position[0] != 1 else v.convert(ci.datatype)"),
+    # ---------------- C05
+    M('C05', 'define-name-not-normalised', 'cfgparser.py', "defname = self._normalize_case(parts[0])", "defname = parts[0]"),
+    M('C05', 'redefinition-guard-dropped', 'cfgparser.py', "            if self.defines[defname] != defvalue:\n                self.error(\"cannot redefine \" + repr(defname))", "            pass"),
+    M('C05', 'isname-check-dropped', 'cfgparser.py', "        if not isname(defname):\n            self.error(\"not a substitution legal name: \" + repr(defname))\n", ""),
+    M('C05', 'include-gets-copy-of-defines', 'loader.py', "            self._parse_resource(section, r, defines)", "            self._parse_resource(section, r, dict(defines))"),
+    M('C05', 'defines-kept-on-loader', 'loader.py', "        parser = ZConfig.cfgparser.ZConfigParser(resource, self, defines)", "        if defines is None:\n            defines = self.__dict__.setdefault('_d', {}) if False else getattr(self.schema, '_vf_d', None)\n            if defines is None:\n                defines = {}\n                try:\n                    self.schema._vf_d = defines\n                except Exception:\n                    pass\n        parser = ZConfig.cfgparser.ZConfigParser(resource, self, defines)"),
+    M('C05', 'value-stored-unexpanded-when-escaped', 'cfgparser.py', "        defvalue = self.replace(defvalue)\n", "        defvalue = self.replace(defvalue) if '$$' not in defvalue else defvalue\n"),
+    # ---------------- C06
+    M('C06', 'include-joined-to-top-url', 'cfgparser.py', "newurl = ZConfig.url.urljoin(self.url, rest)", "newurl = ZConfig.url.urljoin(getattr(self.context, '_vf_top', None) or self.context.__dict__.setdefault('_vf_top', self.url), rest)"),
+    M('C06', 'nested-parser-gets-schema-matcher', 'loader.py', "            self._parse_resource(section, r, defines)", "            self._parse_resource(getattr(section, '_vf_never', section) if section.info is section.type else self.__dict__.get('_vf_sm', section), r, defines)"),
+    M('C06', 'unclosed-check-only-at-top', 'cfgparser.py', "        if self.stack:\n            self.error(\"unclosed sections not allowed\")", "        if self.stack and self.defines is not None and not getattr(self.context, '_vf_depth', 0):\n            self.error(\"unclosed sections not allowed\")"),
+    # ---------------- C07
+    M('C07', 'getinfo-keyerror', 'cmdline.py', "            bk = self.basic_key(s, pos)", "            bk = self._basic_key(s)"),
+    M('C07', 'start-section-catch-narrowed', 'cfgparser.py', "        except ZConfig.ConfigurationError as e:\n            self.error(e.message)\n\n        if isempty:", "        except ZConfig.ConfigurationSyntaxError as e:\n            self.error(e.message)\n\n        if isempty:"),
+    M('C07', 'keytype-wrapper-dropped', 'matcher.py', "        try:\n            realkey = self.type.keytype(key)\n        except ValueError as e:\n            raise ZConfig.DataConversionError(e, key, position)\n        arbkey_info = None", "        realkey = self.type.keytype(key)\n        arbkey_info = None"),
+    M('C07', 'empty-optpath-allowed', 'cmdline.py', "        if \"\" in optpath:", "        if \"\" in optpath[1:]:"),
+    M('C07', 'gettype-keyerror', 'info.py', "        n = name.lower()\n        try:\n            return self._types[n]\n        except KeyError:\n            raise ZConfig.SchemaError(\"unknown type name: \" + repr(name))", "        n = name.lower()\n        return self._types[n]"),
+    # ---------------- C08
+    M('C08', 'error-lineno-minus-1', 'cfgparser.py', "raise ZConfig.ConfigurationSyntaxError(message, self.url, self.lineno)", "raise ZConfig.ConfigurationSyntaxError(message, self.url, self.lineno - 1 if self.stack and len(self.stack) > 1 else self.lineno)"),
+    M('C08', 'value-position-plus-1', 'cfgparser.py', "section.addValue(key, value, (self.lineno, None, self.url))", "section.addValue(key, value, (self.lineno + (1 if self.stack else 0), None, self.url))"),
+    M('C08', 'replace-lineno-not-set', 'cfgparser.py', "            e.lineno = self.lineno\n            e.url = self.url\n            raise\n\n    def error", "            e.url = self.url\n            raise\n\n    def error"),
+    M('C08', 'end-section-clobbers-lineno', 'cfgparser.py', "            if e.lineno < 0:\n                e.lineno = self.lineno\n            if not e.url:\n                e.url = self.url\n            raise\n        except ZConfig.ConfigurationError as e:\n            self.error(e.message)\n", "            e.lineno = self.lineno\n            if not e.url:\n                e.url = self.url\n            raise\n        except ZConfig.ConfigurationError as e:\n            self.error(e.message)\n"),
+    M('C08', 'included-url-is-includer', 'loader.py', "        parser = ZConfig.cfgparser.ZConfigParser(resource, self, defines)", "        parser = ZConfig.cfgparser.ZConfigParser(resource, self, defines)\n        if defines is not None and getattr(matcher, 'name', None):\n            parser.url = self.schema.url or parser.url"),
+    M('C08', 'conversion-value-lost', 'info.py', "            raise ZConfig.DataConversionError(e, self.value, self.position)", "            raise ZConfig.DataConversionError(e, str(e), self.position)"),
+]
